@@ -12,6 +12,7 @@ package eng
 // Hand-made arbitrary TSM layouts are not generated (that would be input generation, not simulation).
 
 import (
+	"time"
 	"bytes"
 	"context"
 	"fmt"
@@ -103,6 +104,9 @@ func (w *world) fileChecks() {
 			os.WriteFile(filepath.Join(dir, filepath.Base(tp)), tb, 0o666)
 		}
 	}
+	// the copies carry real modification times (2026, and equal or not depending on the machine's load);
+	// FileStore.Open compares them, so they are all stamped with the simulated clock
+	stampTree(dir)
 	prev := simfs.Active()
 	simfs.Activate(nil)
 	defer simfs.Activate(prev)
@@ -187,7 +191,7 @@ func (w *world) checkKeyCursors(ctx context.Context, fs2 *tsm1.FileStore, want m
 					// order and uniqueness over everything returned
 					for i := 1; i < len(got); i++ {
 						if asc && got[i-1].ts >= got[i].ts || !asc && got[i-1].ts <= got[i].ts {
-							r.Violate("C06:order", "keycursor-order", "KeyCursor(%q, t=%d, asc=%v, array=%v) returned ts %d then %d", k, t, asc, array, got[i-1].ts, got[i].ts)
+							r.Violate("C06:order", "keycursor-order"+cycleTag(fs2.Files(), []byte(k), asc), "KeyCursor(%q, t=%d, asc=%v, array=%v) returned ts %d then %d", k, t, asc, array, got[i-1].ts, got[i].ts)
 							return
 						}
 					}
@@ -209,13 +213,84 @@ func (w *world) checkKeyCursors(ctx context.Context, fs2 *tsm1.FileStore, want m
 						}
 					}
 					if d := diffPV(e2, g2); d != "" {
-						r.Violate("C06:wrong-merge", "keycursor-merge", "KeyCursor(%q, t=%d, asc=%v, array=%v) over %d files: %s", k, t, asc, array, len(fs2.Files()), d)
+						r.Violate("C06:wrong-merge", "keycursor-merge"+cycleTag(fs2.Files(), []byte(k), asc), "KeyCursor(%q, t=%d, asc=%v, array=%v) over %d files: %s", k, t, asc, array, len(fs2.Files()), d)
 						return
 					}
 				}
 			}
 		}
 	}
+}
+
+func cycleTag(files []tsm1.TSMFile, key []byte, asc bool) string {
+	if orderCycle(locsOf(files, key), asc) {
+		return ":keycursor-order-cycle"
+	}
+	return ""
+}
+
+// ---- known finding C06-F1: the order KeyCursor gives the block locations of a key is not a strict weak order
+
+type blockLoc struct {
+	path     string
+	min, max int64
+}
+
+func locsOf(files []tsm1.TSMFile, key []byte) []blockLoc {
+	var out []blockLoc
+	for _, tf := range files {
+		rd, ok := tf.(*tsm1.TSMReader)
+		if !ok || !tf.Contains(key) {
+			continue
+		}
+		var ents []tsm1.IndexEntry
+		ents = rd.ReadEntries(key, &ents)
+		for _, e := range ents {
+			out = append(out, blockLoc{tf.Path(), e.MinTime, e.MaxTime})
+		}
+	}
+	return out
+}
+
+// orderCycle reports whether the comparison KeyCursor sorts block locations with (overlapping blocks by file
+// path, disjoint ones by time) is cyclic on this key's blocks: three blocks a<b<c<a.  Only then can the sort put
+// an older file's block behind an overlapping block of a newer file (a total, acyclic comparison is a
+// consistent order).  This is the exact precondition of known finding C06-F1; a wrong read on a layout
+// without such a cycle is a different defect.
+func orderCycle(locs []blockLoc, asc bool) bool {
+	less := func(a, b blockLoc) bool {
+		if a.min <= b.max && a.max >= b.min {
+			return a.path < b.path
+		}
+		if asc {
+			return a.min < b.min
+		}
+		return a.max < b.max
+	}
+	for i := range locs {
+		for j := range locs {
+			if i == j || !less(locs[i], locs[j]) {
+				continue
+			}
+			for k := range locs {
+				if k != i && k != j && less(locs[j], locs[k]) && less(locs[k], locs[i]) {
+					return true
+				}
+			}
+		}
+	}
+	return false
+}
+
+// stampTree gives every file under dir the current simulated time as modification time.
+func stampTree(dir string) {
+	now := time.Now()
+	filepath.Walk(dir, func(p string, info os.FileInfo, err error) error {
+		if err == nil {
+			os.Chtimes(p, now, now)
+		}
+		return nil
+	})
 }
 
 func diffPV(want, got []pv) string {
